@@ -88,6 +88,48 @@ let err_name (e : err) : string =
   | EUtf8 -> "utf8" | ESimple -> "simple" | EBigTag -> "bigtag" | EFloat -> "float"
   | EKey -> "key" | EFuel -> "fuel"
 
+(* The shallow groups (wire field names of message structs and of DTOs known only by their field
+   names) are Coq's gen/SerdeDtos.dto_groups; the extracted constant is too large for ocamlopt, so
+   the translator writes the same table in line form into a comment block of gen/SerdeDtos.v:
+     group <type-name prefix> <1 = the decoder itself validates>
+     cand <field>:<omitempty> ...
+   which is read here once.  Lookup = Schema.shallow_group: the group with the longest name that
+   is a prefix of the type name. *)
+let zbytes (s : string) = List.init (String.length s) (fun i -> z_of_int (Char.code s.[i]))
+
+let shallow_table : (string * bool * (Big_int_Z.big_int list * bool) list list) list Lazy.t = lazy (
+  let root = Filename.dirname (Filename.dirname (Filename.dirname
+    (if Filename.is_relative Sys.executable_name then Filename.concat (Sys.getcwd ()) Sys.executable_name else Sys.executable_name))) in
+  let path = Filename.concat root "coq/gen/SerdeDtos.v" in
+  let ic = try open_in path with _ -> failwith ("cannot read " ^ path) in
+  let groups = ref [] and cur = ref None and on = ref false in
+  let flush () = match !cur with Some (n, s, cs) -> groups := (n, s, List.rev cs) :: !groups; cur := None | None -> () in
+  (try
+    while true do
+      let l = input_line ic in
+      if l = "(*TABLE" then on := true
+      else if l = "TABLE*)" then on := false
+      else if !on then
+        match String.split_on_char ' ' l with
+        | ["group"; n; s] -> flush (); cur := Some (n, s = "1", [])
+        | "cand" :: fs ->
+          let c = List.map (fun f -> match String.rindex_opt f ':' with
+              | Some i -> (zbytes (String.sub f 0 i), String.sub f (i + 1) (String.length f - i - 1) = "1")
+              | None -> failwith ("bad table field " ^ f)) fs in
+          (match !cur with Some (n, s, cs) -> cur := Some (n, s, c :: cs) | None -> failwith "cand before group")
+        | _ -> ()
+    done
+  with End_of_file -> ());
+  close_in ic; flush (); !groups)
+
+let shallow_ty (name : string) : ty =
+  let best = List.fold_left (fun best (n, s, cs) ->
+      let ln = String.length n in
+      if ln <= String.length name && String.sub name 0 ln = n then
+        (match best with Some (m, _, _) when String.length m >= ln -> best | _ -> Some (n, s, cs))
+      else best) None (Lazy.force shallow_table) in
+  match best with Some (_, s, cs) -> TShallow (s, cs) | None -> TGeneric
+
 let ty_of (name : string) (c : curve) (sm : bool) : ty =
   (* the part before the first '-' selects the schema; the rest names the curve *)
   let base = match String.index_opt name '-' with Some i -> String.sub name 0 i | None -> name in
@@ -100,7 +142,7 @@ let ty_of (name : string) (c : curve) (sm : bool) : ty =
   | "pedersenshare" -> TPedShare c | "pedersenlifted" -> TPedLifted c | "matrix" -> TMatrix c | "sqmatrix" -> TSqMatrix c | "mvmatrix" -> TMvMatrix c
   | "nat" -> TNat | "int" -> TInt | "natplus" -> TNatPlus
   | "scalar" -> TScalar c | "point" -> TPoint c
-  | _ -> TGeneric
+  | _ -> shallow_ty name
 
 let () =
   iter_lines (fun line ->
